@@ -243,6 +243,8 @@ func (n *node) RouteSendEvent(from gen.PID, token gen.Ref, options gen.MessageOp
 		n.log.Trace("RouteSendEvent from %s with token %s", from, token)
 	}
 
+	var consumers []gen.PID
+
 	if from.Node == n.name {
 		// local producer. check if sender is allowed to send this event
 		value, found := n.events.Load(message.Event)
@@ -255,11 +257,17 @@ func (n *node) RouteSendEvent(from gen.PID, token gen.Ref, options gen.MessageOp
 		}
 
 		if event.last != nil {
+			event.Lock()
 			event.last.Push(message)
+			consumers = n.targetManager.GetConsumersForTarget(message.Event)
+			event.Unlock()
+		} else {
+			consumers = n.targetManager.GetConsumersForTarget(message.Event)
 		}
+	} else {
+		consumers = n.targetManager.GetConsumersForTarget(message.Event)
 	}
 
-	consumers := n.targetManager.GetConsumersForTarget(message.Event)
 	remote := make(map[gen.Atom]bool)
 	// local delivery
 	for _, pid := range consumers {
@@ -764,7 +772,13 @@ func (n *node) RouteLinkEvent(pid gen.PID, target gen.Event) ([]gen.MessageEvent
 
 		event := value.(*eventOwner)
 		lib.VerifPoint("link.add", pid.ID)
+		if event.last != nil {
+			event.Lock()
+		}
 		if err := n.addLocalRelation(pid, target, false, gen.ErrEventUnknown); err != nil {
+			if event.last != nil {
+				event.Unlock()
+			}
 			return nil, err
 		}
 
@@ -779,6 +793,7 @@ func (n *node) RouteLinkEvent(pid gen.PID, target gen.Event) ([]gen.MessageEvent
 				lastEventMessages = append(lastEventMessages, v)
 				item = item.Next()
 			}
+			event.Unlock()
 		}
 
 		c := atomic.AddInt32(&event.consumers, 1)
@@ -1071,7 +1086,13 @@ func (n *node) RouteMonitorEvent(pid gen.PID, target gen.Event) ([]gen.MessageEv
 		}
 		event := value.(*eventOwner)
 		lib.VerifPoint("monitor.add", pid.ID)
+		if event.last != nil {
+			event.Lock()
+		}
 		if err := n.addLocalRelation(pid, target, true, gen.ErrEventUnknown); err != nil {
+			if event.last != nil {
+				event.Unlock()
+			}
 			return nil, err
 		}
 
@@ -1086,6 +1107,7 @@ func (n *node) RouteMonitorEvent(pid gen.PID, target gen.Event) ([]gen.MessageEv
 				lastEventMessages = append(lastEventMessages, v)
 				item = item.Next()
 			}
+			event.Unlock()
 		}
 
 		c := atomic.AddInt32(&event.consumers, 1)
